@@ -198,6 +198,9 @@ func ZvC16_MapHelpers() {
 	var res map[int]int
 	inPlace := false
 	hasRes := true
+	// key list handed over by spreading a caller-owned slice (a window with sentinels): symbolic
+	// keys, so the solver decides which of them are present in the map
+	kw := zvWindow(2)
 	which := vrt.Choice(zvMapHelpers)
 	vrt.Assert(!vrt.Try(func() {
 		switch which {
@@ -214,13 +217,13 @@ func ZvC16_MapHelpers() {
 		case 5:
 			res = Invert(m)
 		case 6:
-			res, _ = Pick(m, ks...)
+			res, _ = Pick(m, kw.s...)
 		case 7:
 			res = PickBy(m, func(k, v int) bool { return vrt.Pred2Int(k, v) })
 		case 8:
 			res = FilterMap(m, zvPred)
 		case 9:
-			res = Omit(m, 1, 2)
+			res = Omit(m, kw.s...)
 			inPlace = true
 		case 10:
 			res = OmitBy(m, func(k, v int) bool { return vrt.Pred2Int(k, v) })
@@ -247,6 +250,7 @@ func ZvC16_MapHelpers() {
 			hasRes = false
 		}
 	}), "C16/map-helper/no-panic")
+	vrt.Assert(kw.intact(), "C16/F1/spread-key-list-unchanged")
 	if inPlace {
 		vrt.Assert(true, "C16/map/in-place")
 		return
